@@ -39,6 +39,10 @@ type RunResult struct {
 	Sample    any              `json:"sample,omitempty"`
 	Tape      []int            `json:"tape,omitempty"`
 	Lines     []string         `json:"lines,omitempty"`
+	// Racy marks a run in which the world let real time-of-arrival decide something the oracle
+	// does not depend on (e.g. a timer that may fire while a client is busy): such runs are
+	// judged like any other but are not used for the determinism guard.
+	Racy bool `json:"racy,omitempty"`
 	// Restart asks the harness to end this worker process after the run (abandoned goroutines).
 	Restart bool `json:"restart,omitempty"`
 }
